@@ -78,8 +78,90 @@ class Interp(StmtMixin, ExtMixin, OpsMixin, InterpCore):
             return
         ExtMixin.write_to(self, f, s, node)
 
-    # generators -----------------------------------------------------------
+    # generators are lazy: their evaluations happen when they are consumed ------
+    def e_GeneratorExp(self, node, env):
+        return GenV(lambda: InterpCore.e_GeneratorExp(self, node, env))
+
     def run_generator(self, fi, env, node):
+        depth_stack = list(self.stack)
+        return GenV(lambda: self._force_in(depth_stack, env, lambda: self.run_generator_now(fi, env, node)))
+
+    def _force_in(self, stack, env, fn):
+        saved = self.stack
+        self.stack = stack + [env]
+        try:
+            return fn()
+        finally:
+            self.stack = saved
+
+    def force(self, g):
+        """-> (sequence value, events logged while producing it)"""
+        if g.value is None:
+            self.event_stack.append([])
+            try:
+                g.value = g.thunk()
+            finally:
+                g.events = self.event_stack.pop()
+        return g.value, g.events
+
+    def as_iterable(self, v, node=None):
+        if isinstance(v, GenV):
+            first = v.value is None
+            val, evs = self.force(v)
+            if first:
+                for e in evs:
+                    self.log_event(e)
+            return StmtMixin.as_iterable(self, val, node)
+        return StmtMixin.as_iterable(self, v, node)
+
+    def run_for(self, st, it, env):
+        if isinstance(it, GenV) and it.value is None:
+            val, evs = self.force(it)
+            n0 = len(self.event_stack[-1])
+            StmtMixin.run_for(self, st, val, env)
+            # the generator advances once per iteration: its evaluations interleave with the loop body
+            self._interleave(evs, n0)
+            return
+        StmtMixin.run_for(self, st, it, env)
+
+    def _interleave(self, gen_events, n0):
+        cur = self.event_stack[-1]
+        inner = []
+        for e in gen_events:
+            if e[0] == "loop":
+                inner.extend(e[1])
+            else:
+                cur.insert(n0, e)
+                n0 += 1
+        if not inner:
+            return
+        for i in range(n0, len(cur)):
+            if cur[i][0] == "loop":
+                cur[i] = ("loop", inner + list(cur[i][1]))
+                return
+        cur.insert(n0, ("loop", inner))
+
+    def m_BufV_writelines(self, base, args, kwargs, node):
+        g = args[0]
+        lazy = isinstance(g, GenV) and g.value is None
+        if lazy:
+            val, evs = self.force(g)
+            n0 = len(self.event_stack[-1])
+        seq = self.as_iterable(g, node)
+        self.write_to(base, self.join(Const(""), seq, node), node)
+        if lazy:
+            # each line is written before the next one is produced
+            w = self.event_stack[-1].pop() if base.is_file else None
+            inner = []
+            for e in evs:
+                if e[0] == "loop":
+                    inner.extend(e[1])
+                else:
+                    self.log_event(e)
+            self.log_event(("loop", inner + ([w] if w else [])))
+        return NONE
+
+    def run_generator_now(self, fi, env, node):
         out = ListV([], "list")
         out.birth = len(self.path_conds)
         env.vars["@yield"] = out
@@ -202,6 +284,20 @@ class Interp(StmtMixin, ExtMixin, OpsMixin, InterpCore):
     def run(self, fi, args, kwargs=None, selfv=None):
         fv = FuncV(fi, selfv=selfv)
         return self.call_function(fv, args, kwargs or {}, None)
+
+
+class GenV(V):
+    """lazy generator (generator expression or generator function call)"""
+    def __init__(self, thunk):
+        self.thunk = thunk
+        self.value = None
+        self.events = None
+
+    def key(self):
+        return ("gen", id(self))
+
+    def __repr__(self):
+        return "<generator>"
 
 
 class _Placeholder(SNode):
